@@ -612,7 +612,9 @@ class Interp:
     def call_repo_function(self, fn: VFunc, args, kwargs):
         fq = fn.fq
         c = self.reg.get(fq)
-        if c is not None and fq != self.top_target and not c.inline:
+        # (the contract under verification may ask for a callee to be taken by its CONTRACT although that callee is inlined elsewhere: `abstract_callees`)
+        forced = fq in (getattr(self.top_contract, "abstract_callees", None) or ())
+        if c is not None and fq != self.top_target and (not c.inline or forced):
             return self.abstract_call(c, fq, args, kwargs, fn)
         if c is not None and fq == self.top_target and self.depth > 0 and not c.inline:
             # recursive call of the function under verification: use its own contract (induction)
